@@ -11,6 +11,7 @@ import (
 	"bufio"
 	"encoding/json"
 	"fmt"
+	"math"
 	"math/rand/v2"
 	"os"
 	"os/exec"
@@ -20,8 +21,10 @@ import (
 	"syscall"
 
 	"verif/internal/core"
+	"verif/internal/hcmark"
 	"verif/internal/sched"
 	"verif/internal/tsdbhist"
+	"verif/internal/tsdbx"
 	"verif/props/c22/headdisk"
 )
 
@@ -61,10 +64,26 @@ func genProgram(seed int64, idx int) program {
 	r := rand.New(rand.NewPCG(a, b))
 	cfg := tsdbhist.GenConfig(r)
 	cfg.WALSegment = 32 * 1024
+	dense := idx%4 == 3
+	if dense {
+		// dense out-of-order mode: few series, smallest out-of-order chunk capacity, most samples
+		// behind the clock, hardly any compaction: out-of-order chunks are m-mapped (markers in the
+		// WBL) while their samples are still in the WBL
+		cfg.OOOCapMax = 4
+		if cfg.OOOWindow == 0 {
+			cfg.OOOWindow = cfg.BlockRange
+		}
+		cfg.NumSeries = 1 + r.IntN(2)
+	}
 	g := tsdbhist.NewGen(r, cfg)
 	g.WCompact = 22
 	g.WRestart = 4
 	n := 15 + r.IntN(31)
+	if dense {
+		g.OOOTenths = 7
+		g.WCompact, g.WDelete, g.WRestart = 2, 1, 2
+		n = 40 + r.IntN(40)
+	}
 	p := program{cfg: cfg}
 	for i := 0; i < n; i++ {
 		p.ops = append(p.ops, g.Next())
@@ -306,16 +325,12 @@ func run(c *core.Case) {
 		c.Seen("killed_at_site", pt.site)
 		checkAfterCrash(c, p, dir, ackPath, pt)
 		os.RemoveAll(dir)
-		if c.Violated() && !onlyKnownKinds(c) {
-			return
-		}
 	}
 	if c.Idx < 2 {
 		c.Sample(map[string]any{"config": p.cfg.String(), "ops": opStrings(p.ops), "sites": hits, "crash_points": len(points)})
 	}
 }
 
-func onlyKnownKinds(c *core.Case) bool { return false }
 
 func opStrings(ops []tsdbhist.Op) []string {
 	var out []string
@@ -365,8 +380,9 @@ func checkAfterCrash(c *core.Case, p program, dir, ackPath string, pt crashPoint
 	} else {
 		c.Seen("inflight_op_kind", "none(between ops or in close)")
 	}
+	preRecs := hcmark.HeadChunkRecs(dir)
 	if err := e.OpenDB(); err != nil {
-		c.Violatef("reopen-failed-after-crash", "%s\ntsdb.Open: %v", what, err)
+		c.ViolateOncef("reopen-failed-after-crash", "%s\ntsdb.Open: %v", what, err)
 		return
 	}
 	defer e.Close()
@@ -384,14 +400,18 @@ func checkAfterCrash(c *core.Case, p program, dir, ackPath string, pt crashPoint
 	}
 	before := e.MayMissObserved
 	if diff := e.Check(nil); diff != "" {
-		c.Violatef("after-crash:"+classify(diff), "%s\nfirst reopen: %s\nstate:\n%s", what, diff, e.Diagnose())
+		kind := "after-crash:" + classify(diff)
+		if k, t, ok := parseMissing(diff); ok && e.IsMaybeOOO(k, t) && markerOfAbsentChunk(e, dir, k, preRecs) {
+			kind = "ooo-sample-lost-to-wbl-marker-of-absent-chunk"
+		}
+		c.ViolateOncef(kind, "%s\nfirst reopen: %s\nstate:\n%s", what, diff, e.Diagnose())
 		return
 	}
 	if repaired && inflight < 0 || repaired && p.ops[max(inflight, 0)].Kind != "delete" {
 		wblMissing = e.MayMissObserved - before
 	}
 	if wblMissing > 0 {
-		c.Violatef("ooo-samples-not-replayed-after-wal-repair", "%s\n%d acknowledged out-of-order samples that live only in the WBL were missing on the first reopen, which repaired a torn WAL tail (Head.Init returns on the WAL error before replaying the WBL)", what, wblMissing)
+		c.ViolateOncef("ooo-samples-not-replayed-after-wal-repair", "%s\n%d acknowledged out-of-order samples that live only in the WBL were missing on the first reopen, which repaired a torn WAL tail (Head.Init returns on the WAL error before replaying the WBL)", what, wblMissing)
 	}
 	reportKnown(c, e, what)
 	nSamples := e.Model.NumSamples()
@@ -406,12 +426,19 @@ func checkAfterCrash(c *core.Case, p program, dir, ackPath string, pt crashPoint
 			op.Samples = append(op.Samples, tsdbhist.SampleOp{Series: i, T: maxT + 1 + int64(i), Kind: "f", F: float64(1000 + i)})
 		}
 		if err := e.Apply(op); err != nil {
-			c.Violatef("append-after-recovery-failed", "%s\n%v", what, err)
+			c.ViolateOncef("append-after-recovery-failed", "%s\n%v", what, err)
 			return
 		}
 		c.Logf("before second restart:\n%s\n%s", e.Diagnose(), tsdbhist.DiskSummary(dir))
+		firstOpen := tsdbx.Dump{}
+		if q, err := e.DB.Querier(math.MinInt64, math.MaxInt64); err == nil {
+			firstOpen, _, _ = tsdbx.DumpQuerier(q)
+			q.Close()
+		}
+		var preRecs2 map[uint64]bool
+		e.OnRestartClosed = func() { preRecs2 = hcmark.HeadChunkRecs(dir) }
 		if err := e.Apply(tsdbhist.Op{Kind: "restart"}); err != nil {
-			c.Violatef("restart-after-recovery-failed", "%s\n%v", what, err)
+			c.ViolateOncef("restart-after-recovery-failed", "%s\n%v", what, err)
 			return
 		}
 		if c.Verbose {
@@ -440,13 +467,22 @@ func checkAfterCrash(c *core.Case, p program, dir, ackPath string, pt crashPoint
 					}
 				}
 			}
+			if k, t, ok := parseMissing(diff); ok && e.IsMaybeOOO(k, t) && strings.HasPrefix(kind, "after-recovery-restart:") {
+				had := false
+				for _, s := range firstOpen[k] {
+					had = had || s.T == t
+				}
+				if had && markerOfAbsentChunk(e, dir, k, preRecs2) {
+					kind = "ooo-sample-lost-to-wbl-marker-of-absent-chunk"
+				}
+			}
 			if recs, _, err := headdisk.Scan(dir); err == nil && strings.HasPrefix(kind, "after-recovery-restart:") {
 				if cl := headdisk.RefClashes(recs); len(cl) > 0 && strings.Contains(diff, "missing sample") {
 					kind = "acknowledged-sample-lost-after-series-ref-reissue"
 					diff += fmt.Sprintf(" [WAL series records give one ref to several label sets: %v]", cl)
 				}
 			}
-			c.Violatef(kind, "%s\nsecond reopen (after new appends and a clean close): %s\nstate:\n%s", what, diff, e.Diagnose())
+			c.ViolateOncef(kind, "%s\nsecond reopen (after new appends and a clean close): %s\nstate:\n%s", what, diff, e.Diagnose())
 			return
 		}
 		reportKnown(c, e, what)
@@ -456,6 +492,21 @@ func checkAfterCrash(c *core.Case, p program, dir, ackPath string, pt crashPoint
 	}
 	c.Count("acked_ops_replayed", int64(len(al.acked)))
 	c.Count("optional_inflight_samples_recovered", int64(e.OptionalSeen))
+}
+
+// markerOfAbsentChunk: witness predicate of the known finding
+// ooo-sample-lost-to-wbl-marker-of-absent-chunk (see hcmark.DanglingMarkerHonoured).
+func markerOfAbsentChunk(e *tsdbhist.Exec, dir, k string, pre map[uint64]bool) bool {
+	if e.DB == nil {
+		return false
+	}
+	post, markers := hcmark.HeadChunkRecs(dir), hcmark.WBLMarkers(dir)
+	for ref, ls := range e.DB.Head().VerifSeriesRefs() {
+		if ls.String() == k && hcmark.DanglingMarkerHonoured(pre, post, markers[ref]) {
+			return true
+		}
+	}
+	return false
 }
 
 func inflightStr(p program, inflight int, al ackLog) string {
